@@ -2717,6 +2717,15 @@ namespace chaiscript {
 
         AST_NodePtr retval(std::move(m_match_stack.front()));
         m_match_stack.clear();
+#ifdef CHAISCRIPT_VERIF
+        {
+          const auto verif_left = static_cast<std::size_t>(m_position.remaining());
+          if (verif_left > chaiscript::verif::parse_remaining_max) {
+            chaiscript::verif::parse_remaining_max = verif_left;
+          }
+          ++chaiscript::verif::parse_returns;
+        }
+#endif
         return retval;
       }
     };
